@@ -53,12 +53,13 @@ COMPONENTS = {
     "not_controlled": ["threads numba starts inside one prange kernel call (swept, not scheduled)"],
 }
 EXPECTED_PROBES = ["kind_sched", "kind_clients", "kind_numba", "two_clients_inside_build_sindex",
-                   "pickle_of_indexed_object", "cold_cache_first_access_concurrent"]
+                   "pickle_of_indexed_object", "cold_cache_first_access_concurrent",
+                   "two_concurrent_pack_to_parquet_calls", "fine_mode_schedule"]
 
 ENV = {"NUMBA_NUM_THREADS": "16"}      # the sweep needs up to 16 numba threads
 REPO = seams.SP_DIR.rstrip("/")
 WORKLOADS = ("cx", "sjoin", "measures", "intersects_bounds", "pack", "pack_parquet", "read_cx")
-CLIENT_OBJECTS = ("array", "rtree", "frame", "dask")
+CLIENT_OBJECTS = ("array", "rtree", "frame", "dask", "dask_store")
 REF = {"workers": 1, "strategy": "inorder", "switch_p": 0.0, "stall": False}
 
 
@@ -94,8 +95,13 @@ def cases(tier, base_seed):
             for _ in range(nc):
                 ops.append([{"op": rng.choice(_client_ops(obj)), "box": gen.gen_box(rng)}
                             for _ in range(rng.randint(1, 3))])
+            if obj == "dask_store":
+                ops = [o[:1] for o in ops[:3]]        # one (expensive) op per client, <= 3 clients
+                if not any(o[0]["op"] == "pack_parquet" for o in ops):
+                    ops[0][0]["op"] = "pack_parquet"
             yield {"seed": seed, "kind": "clients", "object": obj, "frame": frame,
                    "clients": ops, "page_size": rng.choice((1, 2, 3, 8, 512)),
+                   "npartitions": rng.choice((2, 3, 5)), "store": e1.gen_store_cfg(rng),
                    "parts": {"mode": "even", "k": rng.randint(1, min(4, n))},
                    "line_p": rng.choice((0.05, 0.2, 0.5)),
                    "sim": {"workers": rng.choice((1, 2, 4)),
@@ -124,6 +130,10 @@ def _client_ops(obj):
         return ("intersects", "covers_overlaps", "total_bounds", "pickle")
     if obj == "frame":
         return ("cx", "intersects_bounds", "bounds", "pickle", "sindex_intersects")
+    if obj == "dask_store":
+        # clients sharing one Dask frame AND one storage system: each packs the frame to a
+        # dataset of its own (same external tempdir_format with {uuid}), or queries it
+        return ("pack_parquet", "pack_parquet", "pack", "cx", "partition_bounds")
     return ("cx", "partition_bounds", "total_bounds", "cx_partitions", "intersects_bounds")
 
 
@@ -202,7 +212,8 @@ def _one_schedule(case, cfg, seed, fine):
     with seams.scratch(f"c18-{case['seed']}-{seed}") as root:
         sim = Sim(seed, workers=cfg["workers"], strategy=cfg["strategy"],
                   switch_p=cfg["switch_p"], stall_p=0.1 if cfg.get("stall") else 0.0,
-                  trace_files=(REPO,) if fine else (), line_p=0.02 if fine else 0.0)
+                  trace_files=(REPO,) if fine else (),
+                  line_p=(0.02, 0.1, 0.3)[seed % 3] if fine else 0.0)
         store, fs = e1.new_store(sim, root, case["store"])
         exc = None
         out = None
@@ -336,7 +347,124 @@ def _client_op(obj_kind, obj, op, box):
     raise ValueError((obj_kind, op))
 
 
+def _store_op(case, ddf, fs, root, ci, o):
+    """One client operation on the shared (frame, storage) pair."""
+    op, b = o["op"], o["box"]
+    if op == "pack_parquet":
+        name = f"ds_{ci}"
+        out = ddf.pack_partitions_to_parquet(
+            os.path.join(root, name), filesystem=fs, npartitions=case["npartitions"] + ci, p=6,
+            tempdir_format=os.path.join(root, "tmp", "t-{uuid}-{partition}"))
+        res = out.compute()
+        ds = e1.read_dataset(root, name)
+        ds["tree"]["tmp"] = []
+        ds["tree"]["other"] = []
+        return ("pp", _canon_df(res), out.npartitions, e1.dataset_fingerprint(ds))
+    if op == "pack":
+        try:
+            whole = ddf.pack_partitions(npartitions=case["npartitions"], p=6).compute()
+        except HarnessError:
+            raise
+        except Exception as e:  # noqa: BLE001
+            return ("pack-raised", type(e).__name__)
+        return ("pack", _canon_df(whole))
+    if op == "cx":
+        return e2.recs(ddf.cx[b[0]:b[2], b[1]:b[3]].compute())
+    if op == "partition_bounds":
+        return e2.np_rows(ddf.geometry.partition_bounds.values)
+    raise ValueError(op)
+
+
+def _run_clients_store(case):
+    """Clients sharing one DaskGeoDataFrame and one storage system."""
+    probes = {"kind_clients": 1, "object_dask_store": 1}
+    sig = {"kind": "clients", "object": "dask_store"}
+    seed = case["seed"]
+    spec = case["frame"]
+
+    def setup(root):
+        os.makedirs(os.path.join(root, "tmp"), exist_ok=True)
+        return e1.make_ddf(gen.build_frame(spec), case["parts"])
+    # sequential model: same operations one after the other, reference schedule
+    expected = []
+    with seams.scratch(f"c18s-{seed}-ref") as root:
+        sim0 = Sim(seed ^ 0x1111, workers=1, strategy="inorder")
+        st0, fs0 = e1.new_store(sim0, root, case["store"])
+        with seams.installed(sim0, st0):
+            ddf0 = setup(root)
+            for ci, ops in enumerate(case["clients"]):
+                row = []
+                for o in ops:
+                    try:
+                        row.append(("ok", _store_op(case, ddf0, fs0, root, ci, o)))
+                    except HarnessError:
+                        raise
+                    except Exception as e:  # noqa: BLE001
+                        row.append(("exc", type(e).__name__))
+                expected.append(row)
+    got = [[None] * len(ops) for ops in case["clients"]]
+    with seams.scratch(f"c18s-{seed}") as root:
+        sim = Sim(seed, workers=case["sim"]["workers"], strategy=case["sim"]["strategy"],
+                  switch_p=case["sim"]["switch_p"])
+        store, fs = e1.new_store(sim, root, case["store"])
+        with seams.installed(sim, store):
+            shared = setup(root)
+
+            def client(ci):
+                def run():
+                    for oi, o in enumerate(case["clients"][ci]):
+                        sim.event("invoke", (ci, oi, o["op"]))
+                        try:
+                            got[ci][oi] = ("ok", _store_op(case, shared, fs, root, ci, o))
+                        except HarnessError:
+                            raise
+                        except Exception as e:  # noqa: BLE001
+                            got[ci][oi] = ("exc", type(e).__name__, str(e)[:160], "?")
+                        sim.event("return", (ci, oi))
+                return run
+            tasks = sim.run_clients([client(i) for i in range(len(case["clients"]))])
+            for t in tasks:
+                if isinstance(t.exc, HarnessError):
+                    raise t.exc
+        leftovers = sorted(os.listdir(os.path.join(root, "tmp")))
+        conflicts = list(store.conflicts)
+    st = {"events": sim.n_events, "switches": sim.switches, "sim_time": sim.now,
+          "tasks": len(sim.tasks)}
+    digest = sim.digest()
+    npack = sum(1 for ops in case["clients"] for o in ops if o["op"] == "pack_parquet")
+    if npack >= 2:
+        probes["two_concurrent_pack_to_parquet_calls"] = 1
+    for ci, ops in enumerate(case["clients"]):
+        for oi, o in enumerate(ops):
+            exp, g = expected[ci][oi], got[ci][oi]
+            if exp[0] == "exc":
+                continue
+            if g is None:
+                raise HarnessError("client did not finish")
+            sig["op"] = o["op"]
+            if g[0] == "exc":
+                return result(False, "concurrent-exception@store",
+                              f"client {ci} op {o['op']} on a shared Dask frame + storage raised "
+                              f"{g[1]}: {g[2]} while {len(case['clients'])} clients ran "
+                              f"{[x[0]['op'] for x in case['clients']]}; alone it succeeds",
+                              sig, digest, True, probes, **st)
+            if g[1] != exp[1]:
+                return result(False, "concurrent-wrong-result@store",
+                              f"client {ci} op {o['op']} while {len(case['clients'])} clients ran "
+                              f"{[x[0]['op'] for x in case['clients']]}: "
+                              f"{_first_diff(exp[1], g[1])}", sig, digest, True, probes, **st)
+    if leftovers:
+        return result(False, "concurrent-leftover-temp", f"temp entries left: {leftovers[:4]}",
+                      sig, digest, True, probes, **st)
+    if conflicts:
+        return result(False, "concurrent-file-access", f"{conflicts[:3]}", sig, digest, True,
+                      probes, **st)
+    return result(True, digest=digest, nontrivial=sim.switches > 0, probes=probes, **st)
+
+
 def _run_clients(case):
+    if case["object"] == "dask_store":
+        return _run_clients_store(case)
     probes = {"kind_clients": 1, f"object_{case['object']}": 1}
     sig = {"kind": "clients", "object": case["object"]}
     seed = case["seed"]
